@@ -12,6 +12,7 @@
   orchestration theorems do not depend on which sort is plugged in.
 -/
 import SpectraVerif.Proofs.OrchLemmas
+import SpectraVerif.Gen.Status
 
 namespace C05
 open Orch
@@ -75,6 +76,51 @@ theorem c05_counts_any_history (hperm : SortPerm K c) (hist : List (Call β τ))
     r = countTrue s'.ritzConv ∧ (eigenvalues K c s').length = r ∧ (∀ nvec, (eigenvectors K c nvec s').length = min nvec r) ∧
     r ≤ c.nev ∧ (s'.info = .successful ↔ r = c.nev) ∧ (s'.info = .notConverging ↔ r ≠ c.nev) :=
   c05_counts K c hperm sel maxit tol sorting _ r h
+
+/--
+  **The status logic is the source's**: on a normal return, the loop counter `i` and the final `nconv` of the model determine
+  `num_iterations()`, `info()` and the return value through the functions REGENERATED from the statements that follow the restart
+  loop in `HermEigsBase::compute` and `GenEigsBase::compute` (`Gen.Status.*Tail_*`), and the model refreshes the flags exactly when
+  the source's condition `i >= maxit` holds.  (An edit of `m_niter += i + 1`, of the `nconv >= m_nev` status test, of the return
+  expression or of the refresh condition changes the generated definitions and breaks this theorem.)
+-/
+theorem c05_status_from_source (sel : Int) (maxit : Nat) (tol : τ) (sorting : Int) (s : St φ ρ ε κ) (r : Nat)
+    (h : (compute K c sel maxit tol sorting s).out = .ok r) :
+    ∃ (L : LoopRes φ ρ ε κ) (nconv : Nat),
+      (compute K c sel maxit tol sorting s).i = L.i ∧
+      nconv = (refresh K c tol maxit L).2 ∧
+      (L.i ≥ maxit ↔ Gen.Status.hermTail_refresh (L.i : Int) (maxit : Int) = true) ∧
+      (((compute K c sel maxit tol sorting s).st.niter : Nat) : Int) = Gen.Status.hermTail_niter (s.niter : Int) (L.i : Int) ∧
+      (((compute K c sel maxit tol sorting s).st.info.code : Nat) : Int) = Gen.Status.hermTail_info (c.nev : Int) (nconv : Int) ∧
+      ((r : Nat) : Int) = Gen.Status.hermTail_ret (c.nev : Int) (nconv : Int) := by
+  obtain ⟨s2, s4, _, hr, hl, hs, hst, hret, hi, _⟩ := compute_ok_unfold K c sel maxit tol sorting s r h
+  have hL := loop_spec K c sel tol maxit 0 0 0 s2
+  have hrf := retrieve_frame K c sel (afterFactorize K c s)
+  rw [hr] at hrf
+  have hsf := sortRitz_frame K c sorting (refresh K c tol maxit (loop K c sel tol maxit 0 0 0 s2)).1
+  rw [hs] at hsf
+  have hR := refresh_spec K c sel tol maxit s2
+  refine ⟨loop K c sel tol maxit 0 0 0 s2, (refresh K c tol maxit (loop K c sel tol maxit 0 0 0 s2)).2, hi, rfl, ?_, ?_, ?_, ?_⟩
+  · simp only [Gen.Status.hermTail_refresh, decide_eq_true_eq]; omega
+  · rw [hst]
+    show ((s4.niter + ((loop K c sel tol maxit 0 0 0 s2).i + 1) : Nat) : Int) = _
+    rw [hsf.2.1, hR.2.2.2.1, hrf.2.2.1]
+    simp only [Gen.Status.hermTail_niter, afterFactorize]; omega
+  · rw [hst]
+    simp only [Gen.Status.hermTail_info]
+    split <;> rename_i hc
+    · have : ((refresh K c tol maxit (loop K c sel tol maxit 0 0 0 s2)).2 : Int) ≥ (c.nev : Int) := by omega
+      simp [Info.code, this]
+    · have : ¬ ((refresh K c tol maxit (loop K c sel tol maxit 0 0 0 s2)).2 : Int) ≥ (c.nev : Int) := by omega
+      simp [Info.code, this]
+  · rw [hret]; simp only [Gen.Status.hermTail_ret]; omega
+
+/-- both base classes have the same status logic (the general family's regenerated tail equals the symmetric one's) -/
+theorem c05_status_same_both_families (i maxit niter nev nconv : Int) :
+    Gen.Status.genTail_refresh i maxit = Gen.Status.hermTail_refresh i maxit ∧
+    Gen.Status.genTail_niter niter i = Gen.Status.hermTail_niter niter i ∧
+    Gen.Status.genTail_info nev nconv = Gen.Status.hermTail_info nev nconv ∧
+    Gen.Status.genTail_ret nev nconv = Gen.Status.hermTail_ret nev nconv := ⟨rfl, rfl, rfl, rfl⟩
 
 /-- **Flags are fresh**: the flags `compute` hands back were computed by the convergence test from the Ritz pairs of the FINAL
     factorization (the one `eigenvectors()` multiplies with), then permuted together with them — whether the loop ended by
